@@ -25,7 +25,7 @@ STATE = {"n": 0, "phase": "run", "fired": False}
 
 KINDS = {
     "black.format_str": ["raise", "garbage", "different"],
-    "format-command": ["nonzero", "garbage", "different", "oserror", "latin1", "empty"],
+    "format-command": ["nonzero", "garbage", "different", "oserror", "latin1", "empty", "killed"],
     "read_text": ["oserror"],
     "ensure_import": ["runtime"],
     "persist": ["oserror", "runtime"],
@@ -104,6 +104,22 @@ def install():
                 # a command that formats the file on disk and prints nothing
                 return subprocess.CompletedProcess(cmd, 0, b"", b"")
             r = orig_run(cmd, *a, **kw)
+            if kind == "killed":
+                # the formatter is killed by a signal after it wrote a part of its output (a valid prefix)
+                import ast as _ast
+
+                lines = r.stdout.decode("utf-8").splitlines(keepends=True)
+                part = ""
+                for k in range(len(lines) - 1, 0, -1):
+                    cand = "".join(lines[:k])
+                    try:
+                        _ast.parse(cand)
+                    except SyntaxError:
+                        continue
+                    if cand.strip():
+                        part = cand
+                        break
+                return subprocess.CompletedProcess(cmd, -9, part.encode("utf-8"), b"")
             if kind == "different":
                 return subprocess.CompletedProcess(cmd, 0, r.stdout + b"\n# injected trailing comment\n", b"")
             if kind == "latin1":
